@@ -363,7 +363,7 @@ func runVariants(prop, tier, repo string) []variantResult {
 			switch {
 			case code == 2:
 				r.Outcome = "skipped: variant does not load/compile"
-			case code == 1 && strings.Contains(string(out), "VIOLATION property="+prop) && strings.Contains(string(out), sp.Expect):
+			case code == 1 && violationMentions(string(out), prop, sp.Expect):
 				r.Outcome = "detected"
 			case code == 1:
 				r.Outcome = "detected (by another rule than expected)"
@@ -375,4 +375,16 @@ func runVariants(prop, tier, repo string) []variantResult {
 	}
 	wg.Wait()
 	return res
+}
+
+// violationMentions: some VIOLATION line's obligation summary (the line after
+// it) contains expect.
+func violationMentions(out, prop, expect string) bool {
+	lines := strings.Split(out, "\n")
+	for i, l := range lines {
+		if strings.HasPrefix(l, "VIOLATION property="+prop) && i+1 < len(lines) && strings.Contains(lines[i+1], expect) {
+			return true
+		}
+	}
+	return false
 }
